@@ -153,7 +153,7 @@ def merge(total, part):
     total["steps"] += part["steps"]
     total["stats"].update(part["stats"])
     for k in ("states", "grams", "nontrivial"):
-        if len(total[k]) < 8000000:
+        if len(total[k]) < 4000000:
             total[k] |= part[k]
     total["vcount"].update(part["vcount"])
     for v in part["violations"]:
